@@ -43,7 +43,12 @@ impl SortFormat {
                 let b_num: f64 = b
                     .parse()
                     .map_err(|_| anyhow!("\"{}\" is not a valid number", b))?;
-                Ok(a_num.total_cmp(&b_num))
+                if a_num == b_num {
+                    // `0` and `-0` are the same number even though `total_cmp` orders them.
+                    Ok(Ordering::Equal)
+                } else {
+                    Ok(a_num.total_cmp(&b_num))
+                }
             }
         }
     }
